@@ -71,6 +71,7 @@ def run(F, R, ctx):
     traversal_rule(F, R)
     fold_roundtrip_rule(F, R)
     elision_veto_rule(F, R)
+    quasiquote_shape_rule(F, R)
 
 
 # the walkers whose result decides how an assigned variable is compiled: they must see every sub-expression
@@ -644,3 +645,51 @@ def elision_veto_rule(F, R):
                                             "tests the flag through %s, which also consults %s" % (via[0], ", ".join(via[1]))),
                fn.loc(), sample=True)
     R.floor("C01.e", "scope-elision sites", n, 2)
+
+
+STDLIB_SCM = "crates/steel-core/src/scheme/stdlib.scm"
+
+
+def quasiquote_shape_rule(F, R):
+    from . import sexp
+    from . import facts as factsmod
+    R.rule("C01.z", "quasiquote looks inside every shape of template (syntax-tree rule over the library source, stdlib.scm): the "
+                    "quasiquote macro ends with a catch-all that quotes its argument as it is, so every compound shape must be "
+                    "taken apart by an earlier rule — a proper list `(x xs ...)`, a vector `#(x xs ...)` and a dotted list "
+                    "`(x . xs)` — and the dotted family has the same unquote / unquote-splicing head cases as the proper-list "
+                    "family (sibling agreement). A missing shape is quoted wholesale: `((,k . ,v)) keeps its unquotes")
+    forms = sexp.load(factsmod.REPO, STDLIB_SCM)
+    qq = [f for f in forms if sexp.is_form(f, "define-syntax") and len(f) > 2 and str(f[1]) == "quasiquote"]
+    if not qq or not sexp.is_form(qq[0][2], "syntax-rules"):
+        raise CheckError("anchor lost: (define-syntax quasiquote (syntax-rules …)) in %s" % STDLIB_SCM)
+    rules_ = [r for r in qq[0][2][2:] if isinstance(r, list) and len(r) == 2 and isinstance(r[0], list) and len(r[0]) == 2]
+    pats = [r[0][1] for r in rules_]
+    where = "%s:%s" % (STDLIB_SCM, getattr(qq[0], "line", 0))
+
+    def shape(p):
+        if not isinstance(p, list):
+            return ("atom", None)
+        vec = bool(p) and str(p[0]) == "#vector"
+        body = p[1:] if vec else p
+        head = str(body[0][0]) if body and isinstance(body[0], list) and body[0] and not isinstance(body[0][0], list) else None
+        if len(body) >= 3 and str(body[-1]) == "...":
+            return ("vector" if vec else "proper", head)
+        if len(body) >= 3 and str(body[-2]) == ".":
+            return ("dotted", head)
+        return ("other", head)
+    shapes = [shape(p) for p in pats]
+    catch = [i for i, sh in enumerate(shapes) if sh[0] == "atom"]
+    if not catch:
+        raise CheckError("anchor lost: quasiquote has no catch-all rule")
+    before = shapes[:catch[0]]
+    for kind in ("proper", "vector", "dotted"):
+        R.inst("C01.z", "quasiquote / a general rule takes %s templates apart" % kind, (kind, None) in before,
+               "the quasiquote macro has no rule `%s` before its catch-all: a template of that shape is quoted as it stands and the "
+               "unquotes inside it are never evaluated" % {"proper": "(x xs ...)", "vector": "#(x xs ...)", "dotted": "(x . xs)"}[kind],
+               where, sample=True)
+    heads = sorted({h for k, h in before if k == "proper" and h and h.startswith("#%unquote")})
+    for h in heads:
+        R.inst("C01.z", "quasiquote / dotted templates handle a %s head like proper ones" % h, ("dotted", h) in before,
+               "the quasiquote macro evaluates (%s x) at the head of a proper list but has no such rule for a dotted list: "
+               "`((%s e) . rest)` would be rebuilt with the form unevaluated" % (h, h), where, sample=True)
+    R.floor("C01.z", "unquote head cases of the proper-list family", len(heads), 2)
